@@ -339,6 +339,11 @@ func (w *Worker) runPath(s *State) (succ []*State, end PathEnd) {
 		}
 	}()
 	for {
+		if s.PanicMsg != "" {
+			msg := s.PanicMsg
+			s.PanicMsg = ""
+			return nil, w.onGoPanic(s, msg)
+		}
 		th := s.Threads[s.Cur]
 		if len(th.Stack) == 0 {
 			th.Done = true
@@ -419,15 +424,39 @@ func (w *Worker) onGoPanic(s *State, msg string) PathEnd {
 	if s.NoPanic {
 		// the path is feasible (every branch was checked): a panic is a violation
 		w.recordAssert(s, "panic", "false", full)
+		return PathEnd{"panic", full}
 	}
-	return PathEnd{"panic", full}
+	// panic unwinding (deferred calls, recover) is not executed: without zz.NoPanic the rest of
+	// such a path is unexplored, which is reported rather than dropped
+	return PathEnd{"inconclusive", "go panic on a feasible path (deferred calls / recover are not executed): " + full}
 }
 
 // endOfPath discharges end-of-path obligations (overflow side conditions).
 func (w *Worker) endOfPath(s *State) PathEnd {
 	e := w.E
 	if len(s.Overflow) > 0 {
-		r, _ := w.S.Check(s.Decls, s.PC, []string{tOr(s.Overflow...)}, nil)
+		// lengths of byte strings are below 2^32 (no Go string or slice in these programs is larger)
+		pc := s.PC
+		seen := map[string]bool{}
+		for _, o := range s.Overflow {
+			for i := strings.Index(o, "(str.len "); i >= 0; {
+				end := matchParen(o, i)
+				if end < 0 {
+					break
+				}
+				t := o[i : end+1]
+				if !seen[t] {
+					seen[t] = true
+					pc = append(pc[:len(pc):len(pc)], "(<= "+t+" 4294967296)")
+				}
+				j := strings.Index(o[end:], "(str.len ")
+				if j < 0 {
+					break
+				}
+				i = end + j
+			}
+		}
+		r, _ := w.S.Check(s.Decls, pc, []string{tOr(s.Overflow...)}, nil)
 		if r != "unsat" {
 			e.mu.Lock()
 			e.OverflowPaths++
